@@ -1379,7 +1379,9 @@ impl<'p, 'a> Evaluator<'a, 'p> {
                     self.do_std_manifest_xml_jsonml_item_0(array)?
                 }
                 State::StdManifestXmlJsonmlItem1 => self.do_std_manifest_xml_jsonml_item_1()?,
-                State::StdManifestXmlJsonmlItemN => self.do_std_manifest_xml_jsonml_item_n()?,
+                State::StdManifestXmlJsonmlItemN { index } => {
+                    self.do_std_manifest_xml_jsonml_item_n(index)?
+                }
                 State::StdManifestTomlEx => self.do_std_manifest_toml_ex()?,
                 State::StdMember { value } => self.do_std_member(value)?,
                 State::StdMemberString { string } => self.do_std_member_string(string)?,
